@@ -26,7 +26,7 @@ class Chains(Harness):
                  "antismash.common.secmet.record:Record.extend_location",
                  "antismash.common.secmet.record:Record.connect_locations",
                  "antismash.common.secmet.features.protocluster:Protocluster.__init__"]
-    bound = "one rule, G <= 3 (quick) / 4 (thorough) anchoring genes with symbolic coordinates (optionally one origin-spanning gene), symbolic cutoff in [1, 3n], neighbourhood in [0, 3n] and record length n; linear and circular"
+    bound = "one rule, G <= 3 (quick; three genes on a ring are mutually disjoint and the neighbourhood is 0 in the quick tier) / 4 (thorough) anchoring genes with symbolic coordinates (optionally one origin-spanning gene), symbolic cutoff in [1, 3n], neighbourhood in [0, 3n] and record length n; linear and circular"
     outside = "G > 4; multi-exon anchoring genes; on a ring the grouping clauses are claimed while every chain group fits in an arc shorter than half the record (the C04/C07 wording), and the exact-extent clause while core + 2*neighbourhood < record length"
     task_paths = 120
 
@@ -35,8 +35,8 @@ class Chains(Harness):
         gmax = 3 if tier == "quick" else 4
         for g in range(1, gmax + 1):
             out.append({"genes": ["s"] * g, "circ": False})
-            out.append({"genes": ["s"] * g, "circ": True})
-            if g <= gmax - 1:
+            out.append({"genes": ["s"] * g, "circ": True, "disjoint": tier == "quick" and g == 3})
+            if g <= (2 if tier == "quick" else gmax - 1):
                 out.append({"genes": ["s"] * (g - 1) + ["o"], "circ": True})
         return out
 
@@ -48,7 +48,11 @@ class Chains(Harness):
 
     def pre(self, var, v):
         n = v["n"]
-        return L.And([shape_pre("g%d" % i, sh, v, n) for i, sh in enumerate(var["genes"])],
+        extra = []
+        if var.get("disjoint"):
+            # quick tier only: the three genes on a ring do not overlap each other (thorough lifts this)
+            extra = [v["g%de0" % i] <= v["g%ds0" % (i + 1)] for i in range(len(var["genes"]) - 1)] + [v["nb"] == 0]
+        return L.And([shape_pre("g%d" % i, sh, v, n) for i, sh in enumerate(var["genes"])], extra,
                      gene_order_pre(var["genes"], v), 0 <= v["x"], v["x"] < n, v["cutoff"] >= 1, v["nb"] >= 0,
                      v["cutoff"] <= 3 * n, v["nb"] <= 3 * n)
 
